@@ -65,7 +65,20 @@ func (rv *respValue) serializeBlobErrorString(sb *strings.Builder, data respBlob
 }
 
 func (rv *respValue) serializeSimpleString(sb *strings.Builder, data string) {
-	sb.WriteString(fmt.Sprintf("%s\r\n", data))
+	sb.WriteString(respLine(data))
+	sb.WriteString("\r\n")
+}
+
+// respLine makes text safe for a one-line reply (simple string or error): a
+// CR or LF, e.g. from client input quoted in an error message, becomes a space
+func respLine(text string) string {
+	b := []byte(text)
+	for i := range b {
+		if b[i] == '\r' || b[i] == '\n' {
+			b[i] = ' '
+		}
+	}
+	return string(b)
 }
 
 func (rv *respValue) serializeInt(sb *strings.Builder, data respInt) {
